@@ -16,6 +16,8 @@ property-breaking edit flips a definition and a `decide`/`rfl` obligation in Pro
                                           are added, where they are added, which node kinds are renamed, whether
                                           references bound by the statement's own CTEs are left alone, and whether
                                           the result is wrapped (`_convert_leaf_to_cte`)
+  BaseDataFrame._convert_leaf_to_cte /    what the leaf -> CTE conversion moves into the CTE (the copied leaf SELECT minus
+  _create_cte_from_expression             the arguments it clears), whether the frame's chain is kept, how the new leaf is built
 
 Anything outside the shapes below raises Untranslatable (never a default).
 """
@@ -408,6 +410,100 @@ def _rehash(repo: str) -> bool:
     return keeps
 
 
+def _wrap(repo: str) -> t.Dict[str, t.Any]:
+    """`_convert_leaf_to_cte` / `_create_cte_from_expression`: what moves into the new CTE and what the new leaf is"""
+    df = find_class(parse(repo, "sqlframe/base/dataframe.py"), "BaseDataFrame")
+    ob = "Gen.Views._create_cte_from_expression"
+    fn = find_func(df.body, "_create_cte_from_expression")
+    cleared: t.List[str] = []
+    seen: t.List[str] = []
+    for st in fn.body:
+        if isinstance(st, ast.Expr) and isinstance(st.value, ast.Constant):
+            continue
+        s = _u(st)
+        if s == "name = name or self._create_hash_from_expression(expression)":
+            if seen:
+                raise Untranslatable(ob, "the CTE name is computed after the expression was touched")
+            seen.append("name")
+        elif s == "expression_to_cte = expression.copy()":
+            seen.append("copy")
+        elif isinstance(st, ast.Expr) and isinstance(st.value, ast.Call) and _u(st.value.func) == "expression_to_cte.set":
+            a = st.value.args
+            if "copy" not in seen or "cte" in seen:
+                raise Untranslatable(ob, f"{s!r} outside the copy … with_ window")
+            if len(a) == 2 and isinstance(a[0], ast.Constant) and isinstance(a[0].value, str) and isinstance(a[1], ast.Constant) and a[1].value is None and not st.value.keywords:
+                cleared.append(a[0].value)
+            else:
+                raise Untranslatable(ob, f"the CTE body is rewritten by {s!r}")
+        elif s == "cte = exp.Select().with_(name, as_=expression_to_cte, **kwargs).ctes[0]":
+            if "copy" not in seen:
+                raise Untranslatable(ob, "the CTE body is not a copy of the expression")
+            seen.append("cte")
+        elif s in ("cte.set('branch_id', branch_id)", "cte.set('sequence_id', sequence_id)"):
+            continue  # bookkeeping attributes of the CTE node, not part of its SQL
+        elif s == "return (cte, name)":
+            seen.append("ret")
+        else:
+            raise Untranslatable(ob, f"unsupported statement {s[:80]!r}")
+    if seen != ["name", "copy", "cte", "ret"]:
+        raise Untranslatable(ob, f"unexpected statement order {seen}")
+
+    ob = "Gen.Views._convert_leaf_to_cte"
+    fn = find_func(df.body, "_convert_leaf_to_cte")
+    keeps: t.Optional[bool] = None
+    builders: t.List[str] = []
+    outer = False
+    seen = []
+    for st in fn.body:
+        if isinstance(st, ast.Expr) and isinstance(st.value, ast.Constant):
+            continue
+        s = _u(st)
+        if s == "df = self._resolve_pending_hints()":
+            seen.append("hints")
+        elif s == "sequence_id = sequence_id or df.sequence_id":
+            continue
+        elif s == "expression = df.expression.copy()":
+            seen.append("copy")
+        elif s == "cte_expression, cte_name = df._create_cte_from_expression(expression=expression, branch_id=self.branch_id, sequence_id=sequence_id, name=name)":
+            seen.append("cte")
+        elif s.startswith("new_expression = df._add_ctes_to_expression("):
+            if s == "new_expression = df._add_ctes_to_expression(exp.Select(), expression.ctes + [cte_expression])":
+                keeps = True
+            elif s == "new_expression = df._add_ctes_to_expression(exp.Select(), [cte_expression])":
+                keeps = False
+            else:
+                raise Untranslatable(ob, f"unsupported WITH list {s[:100]!r}")
+            seen.append("with")
+        elif s == "sel_columns = df._get_outer_select_columns(cte_expression)":
+            seen.append("cols")
+        elif s.startswith("new_expression = new_expression."):
+            node = st.value  # a chain of builder calls on new_expression
+            chain: t.List[ast.Call] = []
+            while isinstance(node, ast.Call) and isinstance(node.func, ast.Attribute):
+                chain.append(node)
+                node = node.func.value
+            if not (isinstance(node, ast.Name) and node.id == "new_expression"):
+                raise Untranslatable(ob, f"unsupported leaf construction {s[:100]!r}")
+            for c in reversed(chain):
+                m = c.func.attr
+                args = [_u(a) for a in c.args] + [f"{k.arg}={_u(k.value)}" for k in c.keywords]
+                if m == "from_" and args == ["cte_name"]:
+                    builders.append("from_")
+                elif m == "select" and args == ["*[x.expression for x in sel_columns]"]:
+                    builders.append("select")
+                    outer = True
+                else:
+                    raise Untranslatable(ob, f"the new leaf is built with .{m}({', '.join(args)[:60]})")
+            seen.append("leaf")
+        elif s == "return df.copy(expression=new_expression, sequence_id=sequence_id)":
+            seen.append("ret")
+        else:
+            raise Untranslatable(ob, f"unsupported statement {s[:80]!r}")
+    if seen != ["hints", "copy", "cte", "with", "cols", "leaf", "ret"] or keeps is None:
+        raise Untranslatable(ob, f"unexpected statement order {seen}")
+    return {"cleared": cleared, "keeps": keeps, "builders": builders, "outer": outer}
+
+
 def _target_index(v: ast.expr, ob: str) -> str:
     s = _u(v)
     if s == "df.expression.ctes[-1].alias_or_name":
@@ -426,6 +522,7 @@ def gen_views(repo: str) -> str:
     rt = _reader_table(repo)
     sp = _splice(repo)
     keeps_unique = _rehash(repo)
+    wr = _wrap(repo)
     skips_existing = at == "always" or (at == "unlessReplace" and not tv["replace_kw"])
     out = [HEADER, "namespace Sqlframe.Gen", ""]
     out.append("/-- what `createOrReplaceTempView` puts into `session.temp_views` -/")
@@ -464,6 +561,14 @@ def gen_views(repo: str) -> str:
     out.append(f"def sqlWrapsResult : Bool := {_b(sp['wraps'])}")
     out.append("/-- `_replace_cte_names_with_hashes` keeps a CTE's own name when its content hash is already taken -/")
     out.append(f"def rehashKeepsUniqueNames : Bool := {_b(keeps_unique)}")
+    out.append("/-- `_create_cte_from_expression`: arguments of the copied leaf SELECT cleared (`.set(arg, None)`) before it becomes the CTE body -/")
+    out.append("def cteClearedArgs : List String := [" + ", ".join(lean_str(k) for k in wr["cleared"]) + "]")
+    out.append("/-- `_convert_leaf_to_cte`: the new WITH list is `expression.ctes + [cte]` -/")
+    out.append(f"def wrapKeepsChain : Bool := {_b(wr['keeps'])}")
+    out.append("/-- `_convert_leaf_to_cte`: builder calls that make the new leaf out of `exp.Select()` -/")
+    out.append("def wrapLeafBuilders : List String := [" + ", ".join(lean_str(k) for k in wr["builders"]) + "]")
+    out.append("/-- `_convert_leaf_to_cte`: the new select list is the CTE's outer select columns, read back by name -/")
+    out.append(f"def wrapSelectsOuterColumns : Bool := {_b(wr['outer'])}")
     out.append("")
     out.append("end Sqlframe.Gen")
     return "\n".join(out) + "\n"
